@@ -110,6 +110,7 @@ type Engine struct {
 	rtypeT    types.Type
 	debugOut  []string
 	skipIntrinsic bool
+	overrides     map[string]V // harness-installed replacements of package-level functions (zzrt.Override), per path
 	funcByName map[string]*ssa.Function
 	captureResult *V
 	InitWarnings []string
@@ -593,6 +594,11 @@ func (e *Engine) call(caller *frame, pos token.Pos, fn V, args []V) V {
 func (e *Engine) callSSA(caller *frame, pos token.Pos, fn *ssa.Function, args []V, env []V) V {
 	info := e.info(fn)
 	fr := &frame{e: e, caller: caller, fn: fn, info: info, callSite: pos}
+	if len(e.overrides) > 0 && env == nil {
+		if ov, ok := e.overrides[info.name]; ok {
+			return e.call(caller, pos, ov, args)
+		}
+	}
 	if info.intrinsic != nil && !e.skipIntrinsic {
 		return info.intrinsic(e, fr, args)
 	}
